@@ -345,3 +345,13 @@ func (b *Bounds) LenLinOf(env *Env, e ast.Expr) *Lin {
 	l, _ := b.lenLin(env, e)
 	return l
 }
+
+// CondFacts returns the facts implied by cond having the given truth value,
+// interpreted against the facts fs (boolean locals that hold a condition).
+func (b *Bounds) CondFacts(fs FactSet, cond ast.Expr, val bool) []*BFact {
+	saved := b.cur
+	b.cur = fs
+	defer func() { b.cur = saved }()
+	facts, _ := b.condFacts(cond, val)
+	return facts
+}
